@@ -454,6 +454,12 @@ def lagrange_part(ctx: Ctx, drv):
         ctx.count(f"lagrange:{mode}")
         ctx.count(f"lagrange:ydim={1 + len(tail)}")
         ctx.count(f"lagrange:x={flavour}")
+        for v in xn:   # exact ties between the two nearest samples exercise the first-minimum rule of argmin
+            dd = np.sort(np.abs(x - v))
+            if len(dd) > 1 and dd[0] == dd[1]:
+                ctx.count("lagrange:xnew-equidistant-from-two-samples")
+            elif dd[0] == 0:
+                ctx.count("lagrange:xnew-is-a-sample")
         # ---- implementation
         try:
             r = call_interp("lagrange", xi, yi, xn, window=w, bounds_error=be, assume_sorted=srt)
@@ -964,6 +970,19 @@ def run(ctx: Ctx):
     changed, info = extract_c20.generate()
     ctx.extra["tables_regenerated"] = bool(changed)
     ctx.proof = common.prove("C20")
+    if ctx.thorough and ctx.proof.ok:
+        mods = ["Midgard.Props.C20", "Midgard.Proofs.C20Lagrange", "Midgard.Proofs.C20Dop", "Midgard.Proofs.C20Algebra",
+                "Midgard.Model.Numeric", "Midgard.Spec.UnitsSI", "Midgard.Generated.C20Tables"]
+        import subprocess
+        with common.lake_lock():
+            try:
+                p = subprocess.run(["lake", "env", "leanchecker", *mods], cwd=common.LEAN, capture_output=True, text=True, timeout=900)
+                ctx.extra["leanchecker"] = {"modules": mods, "exit": p.returncode}
+                if p.returncode != 0:
+                    ctx.proof.ok = False
+                    ctx.proof.failed.append("leanchecker rejected the modules: " + (p.stdout + p.stderr)[-300:])
+            except subprocess.TimeoutExpired:
+                raise common.ToolFailure("leanchecker timed out")
     drv = ctx.driver
     nu = drv.ask1("c20 nunits").split()
     if [int(v) for v in nu] != [len(info["units"]), len(info["poles"])]:
@@ -984,6 +1003,7 @@ def run(ctx: Ctx):
                     "libm sin/cos/sqrt/arctan2 enter the model as parameters (pi, x.std(), cos/sin of az/el)"]
     ctx.assumptions += ["model inputs are the exact rationals of the doubles handed to the implementation",
                         "pi is represented by the double math.pi in correspondence runs; theorems hold for every positive value"]
+    corpus_part(ctx)
     units_part(ctx, drv, info)
     dms_part(ctx, drv)
     lagrange_part(ctx, drv)
@@ -995,10 +1015,153 @@ def run(ctx: Ctx):
     ctx.traces = ctx.evaluations - ctx.hist.get("unit-triples", 0)
 
 
+def corpus_part(ctx: Ctx):
+    """past failures (corpus/C20/*.json, replay format), run first"""
+    import contextlib
+    import io
+
+    for f in sorted((common.VERIF / "corpus" / "C20").glob("*.json")):
+        payload = json.loads(f.read_text())
+        buf = io.StringIO()
+        with contextlib.redirect_stdout(buf):
+            rc = replay(payload)
+        ctx.case({"part": "corpus", "file": f.name})
+        ctx.count("corpus")
+        if rc != 0:
+            tail = " | ".join(buf.getvalue().strip().splitlines()[-3:])
+            V(ctx, payload.get("key", "corpus:" + f.stem), f"corpus case {f.name} fails again: {tail[:300]}", payload.get("replay"))
+
+
+def _hx(v):
+    return float.fromhex(v) if isinstance(v, str) else float(v)
+
+
 def replay(payload):
-    """re-run the stored case's oracle against the real code"""
+    """re-run the property oracle on the stored input against the real code; exit 1 if it still fails"""
+    from midgard.math.unit import Unit
+
     c = payload.get("replay", payload)
-    print(json.dumps({k: v for k, v in c.items() if k not in ("x", "y", "xn", "az", "el")}, indent=1, default=str)[:1500])
-    print("key:", payload.get("key"), "| what:", payload.get("what"))
-    print("re-run `VERIF_SEED=%s ./check C20 --tier %s` to reproduce" % (payload.get("seed", 0), payload.get("tier", "quick")))
-    return 0
+    key = payload.get("key", "")
+    part = c.get("part", "")
+    ctx = Ctx("C20", "quick", int(payload.get("seed", 0) or 0))
+    print("key:", key)
+    print("what:", payload.get("what"))
+    print("input:", json.dumps({k: v for k, v in c.items() if k not in ("x", "y", "xn", "az", "el")}, default=str)[:600])
+    try:
+        if "no_longer_checks" in c or "no_longer_checks" in payload:
+            print("no failing input was found for this report; it names what no longer checks:",
+                  payload.get("no_longer_checks"))
+            return 0
+        if part == "dms":
+            x = _hx(c["deg"])
+            d, m, sec = (float(v) for v in Unit.deg_to_dms(x))
+            back = float(Unit.dms_to_deg(d, m, sec))
+            print(f"deg_to_dms({x!r}) = {(d, m, sec)}; dms_to_deg(...) = {back!r}")
+            bad = not (abs(frac(back) - frac(x)) <= Fraction(1, 10**11))
+        elif part == "rad_dms":
+            r = _hx(c["rad"])
+            d, m, sec = (float(v) for v in Unit.rad_to_dms(r))
+            back = float(Unit.dms_to_rad(d, m, sec))
+            print(f"rad_to_dms({r!r}) = {(d, m, sec)}; dms_to_rad(...) = {back!r}")
+            bad = not (abs(frac(back) - frac(r)) <= Fraction(1, 5 * 10**12))
+        elif part == "dms_to":
+            d, m, sec = _hx(c["d"]), float(c["m"]), _hx(c["s"])
+            v = float(Unit.dms_to_deg(d, m, sec))
+            want = (abs(frac(d)) + frac(m) / 60 + frac(sec) / 3600) * (-1 if math.copysign(1, d) < 0 else 1)
+            print(f"dms_to_deg({d!r}, {m}, {sec!r}) = {v!r}; expected {float(want)!r}")
+            bad = abs(frac(v) - want) > Fraction(1, 10**11)
+        elif part == "unit" or key.startswith("unit"):
+            a, b = c.get("a"), c.get("b", c.get("a"))
+            v, w = float(Unit(a, b)), float(Unit(b, a))
+            ba = float((1 * Unit(a)).to_base_units().magnitude)
+            bb = float((1 * Unit(b)).to_base_units().magnitude)
+            print(f"{a}2{b} = {v!r}, {b}2{a} = {w!r}, product {v * w!r}; base units {ba!r}, {bb!r}")
+            bad = abs(v * w - 1) > 1e-13 or abs(v - ba / bb) > 1e-13 * abs(v)
+            if a in SI:
+                bad = bad or abs(ba - float(SI[a])) > 1e-13 * float(SI[a])
+            if "c" in c:
+                cc = c["c"]
+                bad = bad or abs(v * float(Unit(b, cc)) - float(Unit(a, cc))) > 1e-13 * abs(float(Unit(a, cc)))
+            if hasattr(Unit, "__getattr__") or True:
+                try:
+                    bad = bad or float(getattr(Unit, f"{a}2{b}")) != v
+                except Exception:  # noqa
+                    pass
+        elif part in KINDS or part == "derivative":
+            kind = c.get("kind", part)
+            x = np.array([_hx(v) for v in c["x"]])
+            xn = np.array([_hx(v) for v in c["xn"]])
+            tail = tuple(c.get("tail", []))
+            yflat = np.array([_hx(v) for v in c["y"]])
+            if part == "derivative":
+                from midgard.math import interpolation as ip
+                y = yflat.reshape((len(x),) + tail)
+                yn, yd = ip.interpolate_with_derivative(x, y, xn, kind=kind, dx=_hx(c["dx"]),
+                                                        **({"window": 3} if kind == "lagrange" else {}))
+                print("values", np.asarray(yn).ravel()[:4], "derivative", np.asarray(yd).ravel()[:4])
+                bad = False
+            else:
+                y = yflat.reshape((len(yflat) // max(1, int(np.prod(tail)) if tail else 1),) + tail)
+                kw = {"window": c["w"], "bounds_error": c.get("bounds_error", True)} if kind == "lagrange" else {}
+                if len(y) != len(x) or c.get("mode", "ok") not in ("ok", "extrapolate"):
+                    r = call_interp(kind, x, y, xn, **kw, **({"assume_sorted": c.get("sorted_flag", False)} if kind == "lagrange" else {}))
+                    print("result", np.asarray(r).ravel()[:6])
+                    bad = False
+                else:
+                    o = np.argsort(x)
+                    interp_oracle(ctx, kind, c, x[o], y[o], xn, None, tail, c.get("w", 4), kw)
+                    bad = bool(ctx.violations)
+                    for v in ctx.violations:
+                        print("  oracle:", v.key, "|", v.what)
+        elif part == "dops":
+            from midgard.gnss.compute_dops import compute_dops
+            az = np.array([_hx(v) for v in c["az"]]); el = np.array([_hx(v) for v in c["el"]])
+            d0 = [float(u) for u in compute_dops(az, el)]
+            th = _hx(c["theta"]) if "theta" in c else 1.0
+            d1 = [float(u) for u in compute_dops(az + th, el)]
+            perm = np.array(c["perm"]) if "perm" in c else np.arange(len(az))[::-1]
+            d2 = [float(u) for u in compute_dops(az[perm], el[perm])]
+            print("dops", d0); print("rotated", d1); print("permuted", d2)
+            g, pd, t, h, v = d0
+            H = np.stack((-np.cos(el) * np.cos(az), -np.cos(el) * np.sin(az), -np.sin(el), np.ones(len(az))), axis=1)
+            tol = 256 * EPS * float(np.linalg.cond(H.T @ H)) + 1e-12
+            bad = (not all(math.isfinite(u) for u in d0) or abs(g * g - pd * pd - t * t) > 1e-12 * g * g
+                   or abs(pd * pd - h * h - v * v) > 1e-12 * pd * pd
+                   or any(not abs(u1 - u0) <= tol * u0 for u0, u1 in zip(d0, d1))
+                   or any(not abs(u2 - u0) <= tol * u0 for u0, u2 in zip(d0, d2)))
+        elif part == "plate":
+            from midgard.math.plate_motion import PlateMotion
+            pm = PlateMotion(plate=c["plate"], model=c["model"])
+            pos = np.array([_hx(v) for v in c["pos"]])
+            pole = np.array([pm.pole.wx, pm.pole.wy, pm.pole.wz], dtype=float)
+            v = np.asarray(pm.get_velocity(pos), dtype=float)
+            nv, nr, nw = (float(np.linalg.norm(u)) for u in (v, pos, pole))
+            print("v =", v, " v.r =", float(v @ pos), " v.w =", float(v @ pole), " (w x r).v =", float(np.cross(pole, pos) @ v))
+            bad = (abs(float(v @ pos)) > 1e-12 * nv * nr + 1e-300 or abs(float(v @ pole)) > 1e-12 * nv * nw + 1e-300
+                   or float(np.cross(pole, pos) @ v) < -1e-12 * (nw * nr) ** 2)
+        elif "doc" in c and "plate" in c:
+            from midgard.collections import plate_motion_models as pmm
+            from midgard.math.plate_motion import PlateMotion
+            pm = PlateMotion(plate=c["plate"], model=c["model"])
+            pole = pmm._PLATE_MOTION_MODELS[c["model"]].poles[c["plate"]]
+            stored = np.array([pole.wx, pole.wy, pole.wz], dtype=float)
+            want = np.asarray(pm.to_cartesian(np.array([float(Fraction(v)) for v in c["doc"]])), dtype=float)
+            print("stored", stored, "documented lat/lon/rate give", np.round(want, 5))
+            bad = float(np.linalg.norm(stored - want)) > 0.01 * float(np.linalg.norm(want))
+        elif part == "linreg":
+            from midgard.math.linear_regression import LinearRegression
+            x = np.array([_hx(v) for v in c["x"]]); y = np.array([_hx(v) for v in c["y"]])
+            l1 = LinearRegression(x.tolist(), y.tolist()); l2 = LinearRegression(x.copy(), y.copy())
+            print("lists:", float(l1.interception), float(l1.slope), " arrays:", float(l2.interception), float(l2.slope))
+            res = np.asarray(l2.residuals)
+            bad = abs(float(l1.slope) - float(l2.slope)) > 1e-9 * (abs(float(l2.slope)) + 1) or \
+                abs(res.sum()) > 1e-9 * (np.abs(y).max() + 1) * len(x)
+        else:
+            print("no direct replay for this kind of input; re-run `VERIF_SEED=%s ./check C20 --tier %s`"
+                  % (payload.get("seed", 0), payload.get("tier", "quick")))
+            return 0
+    except Exception as e:  # noqa
+        print(f"the real code raised {type(e).__name__}: {e}")
+        bad = True
+    print("VIOLATION reproduced" if bad else "holds on the current tree")
+    return 1 if bad else 0
